@@ -602,7 +602,7 @@ def gen_theme(r):
         order = [a for a in admins if a not in skip]
         votes(p, order, 1)
 
-    theme = r.choice("ABCDEFFGGHH")
+    theme = r.choice("ABCDEFFGGHHII")
     if theme == "A":
         P = submit(r.choice(["reg_node", "reg_role"]), 0, 0 if r.random() < 0.5 else 100)
         if blocks[-1][0]["k"] == "reg_role":
@@ -699,6 +699,24 @@ def gen_theme(r):
             others = [a for a in normals if a != x and a not in cs]
             votes(P1, others[: max(1, len(others))], 0)
             votes(P1, [0] + cs, 1)
+    elif theme == "I":
+        # an elector of an OPEN proposal is frozen (counted out once) and then a logout request is made
+        # for him while he is frozen / being activated: the request must not count him out again
+        if len(normals) >= 2:
+            strat = [[0, 0], [0, 0], [0, 0]]
+            x = r.choice(normals)
+            P = submit(r.choice(["reg_node", "reg_role"]), 0, 0)
+            if blocks[-1][0]["k"] == "reg_role":
+                blocks[-1][0]["x"] = 100
+            votes(P, r.sample([a for a in admins if a != x], r.randint(0, 1)))
+            F = submit("freeze", 0, x)
+            approve_all(F, skip=[x])
+            if r.random() < 0.3:
+                A = submit("activate", 0, x)
+            L = submit("logout", r.choice([0, x]), x)
+            votes(P, r.sample([a for a in admins if a != x], min(2, n - 1)))
+            votes(L, [a for a in admins if a != x], r.randrange(2))
+            votes(P, [a for a in admins if a != x], 1)
     elif theme == "H":
         # two or three proposals open at once whose frozen electorates DIFFER (an admin frozen at one
         # submission and active at another), then freeze / activate of admins that are electors of
